@@ -115,6 +115,25 @@ def gen_cases(rng, tier):
         cases.append({"kind": "ook", "bits": _bits(rng, kind, rng.choice([33, 45, 64, 127, 128, 254])), "pattern": kind, "sps": sps,
                       "R": rng.choice([1e9, 10e9]), "shape": shape, "Vpi": 3.5, "loss_dB": 3.0, "ER_dB": er, "P": 10 ** rng.uniform(-4, -2),
                       "npol": rng.choice([1, 2]), "pol": "x", "r": 0.8, "Rl": 50.0, "bw": bw, "prop": "none", "seed": rng.getrandbits(31)})
+    # two tributaries modulated onto the SAME two-polarisation carrier object (x then y, or y then x)
+    for _ in range(3 if tier == "quick" else 20):
+        sps = rng.choice([8, 9, 16, 32])
+        nb = rng.choice([32, 48])
+        cases.append({"kind": "dual", "bits": _bits(rng, "random", nb), "bits2": _bits(rng, "random", nb), "order": rng.choice([["x", "y"], ["y", "x"]]),
+                      "sps": sps, "R": rng.choice([1e9, 10e9]), "shape": rng.choice(["nrz", "gaussian"]), "Vpi": 3.5, "loss_dB": 3.0,
+                      "ER_dB": rng.choice([13.0, 30.0]), "P": 1e-3, "npol": 2, "pol": "x", "r": 0.9, "Rl": 50.0, "bw": rng.choice([1.0, 1.5]),
+                      "prop": "none", "D": 0.0, "L": 1.0, "seed": rng.getrandbits(31)})
+    # PPM at the lowest sampling rates, both decisions, every run
+    for sps in (4, 5):
+        for dec in ("soft", "hard"):
+            for M in ([2, 4, 8, 16] if sps == 4 else [rng.choice([2, 4, 8, 16])]):
+                for shape, bw in ([("nrz", 0.7), ("gaussian", 0.7), ("nrz", 1.0), ("gaussian", 1.0)] if (sps == 4 and dec == "hard")
+                                  else [(rng.choice(["nrz", "gaussian"]), rng.choice([0.7, 0.9, 1.2]))]):
+                    k = M.bit_length() - 1
+                    bits = [rng.randint(0, 1) for _ in range(48 * k)]
+                    cases.append({"kind": "ppm", "bits": bits, "M": M, "decision": dec, "sps": sps, "R": rng.choice([1e9, 10e9]), "shape": shape,
+                                  "Vpi": 3.5, "loss_dB": rng.choice([1.0, 3.0]), "ER_dB": rng.choice([20.0, 30.0]), "P": 1e-3, "npol": 1,
+                                  "pol": "x", "r": 0.9, "Rl": 50.0, "bw": bw, "seed": rng.getrandbits(31)})
     # several links in ONE process with the same PD bandwidth while the sampling rate goes down (a stale filter design or
     # any other state carried from one simulation to the next shows up here)
     for _ in range(2 if tier == "quick" else 8):
@@ -145,18 +164,20 @@ def _levels(case):
     return float(v(0.0)), float(v(case["Vpi"]))
 
 
-def _run_chain(case, bits):
+def _run_chain(case, bits, cw=None, pol=None):
     """the real chain; returns (received electrical_signal, pre-filter waveform spied at PD's LPF)"""
     from opticomlib.typing import gv, optical_signal
     import opticomlib.devices as dev
     n = len(bits) * case["sps"]
     x = dev.DAC(bits, Vout=case["Vpi"], bias=0.0, pulse_shape="gaussian" if case.get("shape") == "gaussian" else "nrz")
     amp = np.sqrt(case["P"])
-    if case["npol"] == 1:
+    if cw is not None:
+        pass                                     # a carrier object handed in by the caller (shared between tributaries)
+    elif case["npol"] == 1:
         cw = optical_signal(np.full(n, amp, dtype=complex))
     else:
         cw = optical_signal(np.array([np.full(n, amp, dtype=complex), np.full(n, amp, dtype=complex)]))
-    pol = case["pol"] if case["npol"] == 2 else "x"
+    pol = pol or (case["pol"] if case["npol"] == 2 else "x")
     y = dev.MZM(cw, x, bias=case["Vpi"], Vpi=case["Vpi"], loss_dB=case["loss_dB"], ER_dB=case["ER_dB"], pol=pol)
     if case.get("prop") == "dm":
         y = dev.DM(y, case["D"])
@@ -214,6 +235,23 @@ def run_impl(case):
                 res.update(status="ok", decoded=dec, v0=v0, v1=v1, n=len(z), pre=[float(t) for t in spy["pre"]],
                            pre_noise_zero=bool(spy["pre_noise"] is None or not np.any(spy["pre_noise"])),
                            margin=float(np.max(np.abs(ys - lv)) / (abs(v1 - v0) / 2)), cls=type(z).__name__)
+            elif case["kind"] == "dual":
+                # polarisation multiplexing: ONE two-polarisation CW carrier object feeds two modulators (pol x, then pol y)
+                from opticomlib.typing import optical_signal
+                n = len(case["bits"]) * case["sps"]
+                amp = np.sqrt(case["P"])
+                cw = optical_signal(np.array([np.full(n, amp, dtype=complex), np.full(n, amp, dtype=complex)]))
+                v0, v1 = _levels(case)
+                thr = (v0 + v1) / 2
+                trib = []
+                for pol, bits in zip(case["order"], (case["bits"], case["bits2"])):
+                    with time_limit(120):
+                        z, _ = _run_chain(case, bits, cw=cw, pol=pol)
+                        smp = dev.SAMPLER(z, gv.sps // 2)
+                    ys = np.array(smp.signal.real, dtype=float)
+                    dec = [int(b) for b in ((ys > thr) if v1 > v0 else (ys < thr))]
+                    trib.append({"pol": pol, "bits": bits, "decoded": dec})
+                res.update(status="ok", trib=trib, carrier_intact=bool(np.all(np.abs(cw.signal) == amp)))
             elif case["kind"] == "sweep":
                 rr = __import__("random").Random(case["seed"])
                 steps = []
@@ -313,7 +351,7 @@ def oracle(case, res):
         if res["ber0"] != 0:
             v.append(("C03:counter-zero", f"counter reports {res['ber0']} for identical sequences"))
         return v
-    tag = {k: case[k] for k in case if k not in ("bits", "tx")}
+    tag = {k: case[k] for k in case if k not in ("bits", "bits2", "tx")}
     if case["kind"] == "chain":
         if res["decoded"] != case["bits"]:
             nerr = sum(a != b for a, b in zip(res["decoded"], case["bits"])) + abs(len(res["decoded"]) - len(case["bits"]))
@@ -322,6 +360,13 @@ def oracle(case, res):
             v.append(("C03:chain-shape", f"received {res['cls']} of length {res['n']}"))
         if not res["pre_noise_zero"]:
             v.append(("C03:noise-free", "PD produced a non-zero noise component with every noise source switched off"))
+        return v
+    if case["kind"] == "dual":
+        for t in res["trib"]:
+            if t["decoded"] != t["bits"]:
+                nerr = sum(a != b for a, b in zip(t["decoded"], t["bits"])) + abs(len(t["decoded"]) - len(t["bits"]))
+                v.append(("C03:chain:shared-carrier", f"tributary on pol {t['pol']} (modulators fed from one 2-pol carrier in the order {case['order']}): {nerr} bit errors {tag}"))
+                break
         return v
     if case["kind"] == "sweep":
         for i, st in enumerate(res["steps"]):
@@ -349,7 +394,9 @@ def features(case, res):
             m = res["margin"]
             f.append("margin<0.25" if m < 0.25 else "margin<0.5" if m < 0.5 else "margin<0.75" if m < 0.75 else "margin<1" if m < 1 else "margin>=1")
     if case["kind"] == "ppm":
-        f += [f"M={case['M']}", case["decision"]]
+        f += [f"M={case['M']}", case["decision"], "sps=%d" % case["sps"]]
+    if case["kind"] == "dual" and res.get("status") == "ok":
+        f.append("carrier-intact" if res.get("carrier_intact") else "carrier-modified")
     return f
 
 
